@@ -2,7 +2,7 @@
 From Coq Require Import String.
 From Coq Require Import List NArith Bool Lia.
 Import ListNotations.
-From Snaps Require Import Base.Bytes Model.PathModel Model.Api Model.Caller Proofs.BytesP Proofs.CallerP.
+From Snaps Require Import Base.Bytes Base.Dec Model.PathModel Model.Api Model.Caller Proofs.BytesP Proofs.CallerP Proofs.PercentP.
 
 (* multi-entry snapshots live at <dir>/<name>.snap<Ext>: <dir> = Dir when absolute, else the calling
    test file's directory joined with Dir; <name> = Filename or the test file's base name without
@@ -85,6 +85,30 @@ Proof. exact subst_d_format. Qed.
 Print Assumptions C11_standalone_file_name.
 Print Assumptions C11_standalone_kth_name.
 Print Assumptions C11_ordinal_substitution.
+
+(* THE k-th STANDALONE FILE, whole path, for EVERY Config, calling file and test name - '%', "%d", '/', "." and ".." anywhere in
+   them included: substituting the ordinal into the format snapshotPath builds gives exactly
+       <dir>/<Filename, or the test name with / replaced by _>_<k>.snap<Ext>
+   computed by the plain path functions (Proofs/PercentP.v: every path function commutes with a byte-wise expansion that keeps
+   '/' and '.' and maps every other byte to a non-empty string without them; the format is one such expansion of the plain path
+   with a fresh marker byte at the ordinal, the result another) *)
+Theorem C11_standalone_kth : forall (c : config) (caller test : bytes) (n : nat),
+  subst_d (snapshot_path c caller test true) (dec n) =
+  join2 (if is_abs (c_dir c) then c_dir c else join2 (dirname caller) (c_dir c))
+        ((match c_filename c with [] => replace_byte slash 95%N test | f => f end)
+           ++ B "_" ++ dec n ++ B ".snap" ++ c_ext c)%list.
+Proof. exact standalone_kth_path. Qed.
+Print Assumptions C11_standalone_kth.
+Example C11_standalone_kth_example :
+  subst_d (snapshot_path {| c_filename := B "f%"; c_dir := B "a/../b%"; c_ext := B ".x%"; c_update := None |}
+                         (B "/p%d/q/x_test.go") (B "T") true) (dec 12) = B "/p%d/q/b%/f%_12.snap.x%".
+Proof. vm_compute. reflexivity. Qed.
+(* the ordinal may not hold a '/': Clean runs before the substitution on one side and after it on the other *)
+Example C11_standalone_kth_needs_plain_ordinal :
+  let c := {| c_filename := B "f"; c_dir := B "d"; c_ext := []; c_update := None |} in
+  subst_d (snapshot_path c (B "/p/x_test.go") (B "T") true) (B "/../y") = B "/p/d/f_/../y.snap" /\
+  join2 (join2 (dirname (B "/p/x_test.go")) (c_dir c)) (c_filename c ++ B "_" ++ B "/../y" ++ B ".snap" ++ c_ext c)%list = B "/p/d/y.snap".
+Proof. exact standalone_subst_path_slash_refuted. Qed.
 
 (* MatchStandaloneJSON: ".json" exactly when no Ext option was given *)
 Theorem C11_json_ext_default : forall c, c_ext c = [] -> c_ext (json_ext c) = B ".json".
